@@ -106,12 +106,30 @@ func namedLocal(fn *ssa.Function, name string, at *ssa.BasicBlock) *ssa.Alloc {
 // localsEnv binds every named local of frame fr (visible at block at) to its current value.
 func (x *Exec) localsEnv(st *State, fr *Frame, frameIdx int, at *ssa.BasicBlock, pkgPath string) *Env {
 	env := x.newEnv(st, pkgPath)
+	env.frame = fr
+	env.frameIx = frameIdx
 	names := map[string]bool{}
 	for _, b := range fr.fn.Blocks {
 		for _, in := range b.Instrs {
 			if a, ok := in.(*ssa.Alloc); ok && a.Comment != "" && !strings.Contains(a.Comment, "$") && a.Comment != "varargs" && a.Comment != "complit" && a.Comment != "slicelit" && a.Comment != "makeslice" {
 				names[a.Comment] = true
 			}
+		}
+	}
+	// variables captured by a closure are reached through the closure's free variables
+	for _, fv := range fr.fn.FreeVars {
+		pv, ok := fr.vals[fv]
+		if !ok {
+			continue
+		}
+		if p, ok := pv.(*PtrV); ok {
+			t := fv.Type().(*types.Pointer).Elem()
+			if p.Kind == PLocal {
+				if _, set := st.frames[p.Frame].locals[p.Alloc]; !set {
+					continue
+				}
+			}
+			env.bind(fv.Name(), x.load(st, st, p), t)
 		}
 	}
 	for n := range names {
@@ -279,8 +297,24 @@ func (x *Exec) havocLoop(st *State, fr *Frame, frameIdx int, h *ssa.BasicBlock, 
 		x.havocLocs(st, env, ls.Modifies)
 		return
 	}
+	for _, r := range ws.iters {
+		key := iterKey(r, len(st.frames))
+		if _, ok := st.heap[key]; ok {
+			ks := mapKeySort(r.X.Type())
+			st.heap[key] = x.fresh("loop_visited", arrSort(ks, SBool))
+		}
+	}
 	if ws.all {
+		iters := map[string]*Term{}
+		for k, v := range st.heap {
+			if strings.HasPrefix(k, "ITER|") || strings.HasPrefix(k, "VARIANT|") || strings.HasPrefix(k, "unroll:") {
+				iters[k] = v
+			}
+		}
 		x.havocAll(st, "loop body calls unknown code")
+		for k, v := range iters {
+			st.heap[k] = v
+		}
 		return
 	}
 	var names []string
@@ -299,6 +333,7 @@ func (x *Exec) havocLoop(st *State, fr *Frame, frameIdx int, h *ssa.BasicBlock, 
 }
 
 type writeSet struct {
+	iters      []*ssa.Range
 	heaps      map[string]Sort
 	locals     map[*ssa.Alloc]bool
 	heapAllocs map[*ssa.Alloc]bool
@@ -379,6 +414,10 @@ func (x *Exec) scanWrites(instrs []ssa.Instruction, ws *writeSet, visited map[*s
 			for _, c := range comps(mt.Underlying().(*types.Map).Elem()) {
 				ws.heaps["MV|"+typeID(mt)+"|"+c.Suffix] = arrSort(SInt, arrSort(mapKeySort(mt), c.Sort))
 			}
+		case *ssa.Next:
+			if r, ok := in.Iter.(*ssa.Range); ok && !in.IsString {
+				ws.iters = append(ws.iters, r)
+			}
 		case *ssa.Call:
 			x.scanCallWrites(in.Common(), in, ws, visited, depth)
 		case *ssa.Defer:
@@ -454,7 +493,7 @@ func (x *Exec) scanContractWrites(k *FuncSpec, ws *writeSet) {
 			ws.all = true
 		case l.Ghost != "":
 			g := x.sp.Ghosts[l.Ghost]
-			ws.heaps["G|"+l.Ghost] = arrSort(SInt, x.ghostSort(g))
+			ws.heaps["G|"+l.Ghost] = x.ghostHeapSort(g)
 		case l.Type != "":
 			T := env.resolveType(l.Type)
 			s, _ := isStructType(T)
@@ -544,8 +583,15 @@ func (x *Exec) atReturn(st *State, res []Value, in *ssa.Return) {
 		av, _ := x.eval(env, gs.Arg)
 		vv, _ := x.eval(env, gs.Val)
 		name := "G|" + gs.Ghost
-		h := st.getHeap(name, arrSort(SInt, x.ghostSort(g)))
-		st.heap[name] = mkStore(h, x.valRef(st, av), x.asPlainPure(vv).(*Term))
+		h := st.getHeap(name, x.ghostHeapSort(g))
+		if gs.Arg2 != nil {
+			a2, _ := x.eval(env, gs.Arg2)
+			k2 := x.asPlainPure(a2).(*Term)
+			row := mkSelect(h, x.valRef(st, av))
+			st.heap[name] = mkStore(h, x.valRef(st, av), mkStore(row, k2, x.asPlainPure(vv).(*Term)))
+		} else {
+			st.heap[name] = mkStore(h, x.valRef(st, av), x.asPlainPure(vv).(*Term))
+		}
 	}
 	for i, c := range x.spec.Ensures {
 		label := c.Label
@@ -703,7 +749,7 @@ func (x *Exec) frameCheck(st *State, env *Env, pos token.Pos) {
 	sort.Strings(names)
 	top0 := x.entry.top
 	for _, n := range names {
-		if strings.HasPrefix(n, "VARIANT|") || strings.HasPrefix(n, "unroll:") || allowedWhole[n] {
+		if strings.HasPrefix(n, "VARIANT|") || strings.HasPrefix(n, "unroll:") || strings.HasPrefix(n, "ITER|") || strings.HasPrefix(n, "callcount:") || allowedWhole[n] {
 			continue
 		}
 		cur := st.heap[n]
